@@ -33,6 +33,10 @@ def parseVal (s : Sexp) : Option Val :=
     | some c, some sc => some (.dec c sc)
     | _, _ => none
   | .list [.atom "s", b] => (b.bytes?).map fun bs => .str (bs.map (·.toNat))
+  | .list [.atom "f", c, sc, z] =>
+    match c.int?, sc.nat?, z.nat? with
+    | some c, some sc, some z => some (.flt c sc (z == 1))
+    | _, _, _ => none
   | .list [.atom "b", .atom "1"] => some (.bool true)
   | .list [.atom "b", .atom "0"] => some (.bool false)
   | _ => none
@@ -69,6 +73,7 @@ def parseColTy (s : Sexp) : Option ColTy :=
   | .atom "d3" => some (.dec 3)
   | .atom "sb" => some .strBin
   | .atom "sc" => some .strCi
+  | .atom "f" => some .dbl
   | _ => none
 
 def parseOp (s : Sexp) : Option Op :=
@@ -103,6 +108,21 @@ def handle (p : List Sexp) : String :=
       match tys.mapM (parseCmpTy e), vs.mapM parseVal with
       | some ts, some vs => answer (showHash (hashOfSimpleTuple ts vs))
       | _, _ => answer "bad-case"
+  -- same key ⇔ `=` on one pair of non-NULL numbers: `ty` = a compare type (HashOfSimple) or `hashof`
+  -- (HashOf without schema); observation: 1 = the two hashes are equal
+  | [.list [.atom "hpair", ty, a, b]] =>
+    match parseVal a, parseVal b with
+    | some a, some b =>
+      let k : Option Bool :=
+        if ty == .atom "hashof" then some (hashOfRel none a b)
+        else (parseCmpTy ⟨rawColl, rawColl⟩ ty).map fun t => keyEq (simpleKey t a) (simpleKey t b)
+      match k with
+      | some k =>
+        let i := if k then "1" else "0"
+        let sp := if mtch rawColl a b then "1" else "0"
+        if i == sp then answer i else answer i sp "hpair_unfaithful"
+      | none => answer "bad-case"
+    | _, _ => answer "bad-case"
   | [.list [.atom "cdkey", .list vs]] =>
     match vs.mapM parseVal with
     | some vs => answer (toString (XX.sum64 (countDistinctKey vs)).toNat)
